@@ -25,6 +25,7 @@ type CfgOpt struct {
 	Lk   string   `json:"lk"`   // file | raw | args
 	Keys []string `json:"keys"`
 	Val  int      `json:"val"` // marker value this source supplies for each of its keys (markers may repeat)
+	Join bool     `json:"join"` // a further loader of the same variadic Set/AddConfigLoader call as the option before
 }
 type CfgScenario struct {
 	ID   string   `json:"id"`
@@ -61,14 +62,42 @@ func runConfig(sc *CfgScenario, dir string) map[string]any {
 	cfg := configure.NewConfigure()
 	cfg.SetBinder(binder.NewViperBinder("yaml"))
 	ops := []app.SettingOption{app.LogLevel(syslog.LvPanic), app.SetConfigure(cfg)}
+	var pend []configure.Loader
+	pendKind := ""
+	flush := func() {
+		if len(pend) == 0 {
+			return
+		}
+		if pendKind == "set" {
+			ops = append(ops, app.SetConfigLoader(pend...))
+		} else {
+			ops = append(ops, app.AddConfigLoader(pend...))
+		}
+		pend = nil
+	}
 	for i, o := range sc.Opts {
 		var ld configure.Loader
+		if o.Kind == "init" {
+			flush()
+			// an application start in the middle: the shared Configure is initialised with the options so far; the
+			// remaining options act on the same Configure and the final start initialises it again
+			func() {
+				defer func() { _ = recover() }()
+				_ = app.NewApp().Run(append(ops, app.SetComponents(&cfgProps{}))...)
+			}()
+			ops = []app.SettingOption{app.LogLevel(syslog.LvPanic), app.SetConfigure(cfg)}
+			continue
+		}
 		switch o.Lk {
 		case "file":
 			fn := filepath.Join(dir, fmt.Sprintf("%s-%d.yaml", sc.ID, i+1))
 			_ = os.WriteFile(fn, docFor(o.Val, o.Keys, true), 0o644)
-			ops = append(ops, app.SetConfig(fn))
-			continue
+			if o.Kind == "file" {
+				flush()
+				ops = append(ops, app.SetConfig(fn))
+				continue
+			}
+			ld = loader.NewFileLoader(fn)
 		case "args":
 			var args []string
 			for _, k := range o.Keys {
@@ -78,12 +107,13 @@ func runConfig(sc *CfgScenario, dir string) map[string]any {
 		default:
 			ld = loader.NewRawLoader(docFor(o.Val, o.Keys, true))
 		}
-		if o.Kind == "set" {
-			ops = append(ops, app.SetConfigLoader(ld))
-		} else {
-			ops = append(ops, app.AddConfigLoader(ld))
+		if !o.Join {
+			flush()
+			pendKind = o.Kind
 		}
+		pend = append(pend, ld)
 	}
+	flush()
 	holder := &cfgProps{}
 	ops = append(ops, app.SetComponents(holder))
 	ap := app.NewApp()
@@ -119,7 +149,7 @@ func runConfig(sc *CfgScenario, dir string) map[string]any {
 		if keys == nil {
 			keys = []string{}
 		}
-		optsOut[i] = map[string]any{"kind": o.Kind, "lk": o.Lk, "keys": keys, "val": o.Val}
+		optsOut[i] = map[string]any{"kind": o.Kind, "lk": o.Lk, "keys": keys, "val": o.Val, "join": o.Join}
 	}
 	return map[string]any{"id": sc.ID, "opts": optsOut, "eff": eff, "bound": bound, "ok": ok, "panic": panicked}
 }
